@@ -19,7 +19,7 @@ inline Plan Gen(uint64_t seed)
 {
    Rng cfg(seed, "config"), wl(seed, "workload"), fl(seed, "faults");
    Plan p;
-   static const int gwWeights[NUM_GW] = {30, 16, 10, 8, 8, 10, 7, 7, 0, 0};
+   static const int gwWeights[NUM_GW] = {30, 16, 10, 8, 8, 10, 6, 6, 5, 5};
    int tot = 0; for (int w : gwWeights) tot += w;
    int pickW = (int) cfg.below((uint32_t) tot), gw = 0; while(pickW >= gwWeights[gw]) {pickW -= gwWeights[gw]; gw++;}
    const int enc = ((gw == GW_BIN)||(gw == GW_TMPL)||(gw == GW_WS)) ? (cfg.oneIn(3) ? 0 : (int) cfg.below(10)) : 0;
@@ -82,13 +82,14 @@ struct Harness
    SimStream a2b, b2a;
    AbstractMessageIOGatewayRef S, R;            // C++ ends (either may be NULL when that end is a C gateway)
    MMessageGateway * miniS, * miniR;
+   UMessageGateway microS, microR; bool useMicroS, useMicroR; std::vector<uint8_t> microBufs[4];   // the micro gateway works in caller-supplied buffers
    SimDataIO * sio, * rio;
    QueueGatewayMessageReceiver rq, sq;
    std::vector<std::string> sent, got;          // units
    uint64_t sentBytes;
    RunResult & res; TraceHash th;
 
-   Harness(const Plan & plan, RunResult & r) : cfg(plan), miniS(NULL), miniR(NULL), sio(NULL), rio(NULL), sentBytes(0), res(r)
+   Harness(const Plan & plan, RunResult & r) : cfg(plan), miniS(NULL), miniR(NULL), useMicroS(false), useMicroR(false), sio(NULL), rio(NULL), sentBytes(0), res(r)
    {
       gw = GwFromName(cfg.s("gw", "bin")); if (gw < 0) gw = GW_BIN;
       const int enc = MUSCLE_MESSAGE_ENCODING_DEFAULT + (int) cfg.i("enc", 0);
@@ -116,8 +117,12 @@ struct Harness
          break;
          case GW_CPP2MINI: S.SetRef(new MessageIOGateway()); miniR = MGAllocMessageGateway(); break;
          case GW_MINI2CPP: miniS = MGAllocMessageGateway(); R.SetRef(new ExactFrame<MessageIOGateway>()); break;
+         case GW_CPP2MICRO: S.SetRef(new MessageIOGateway()); useMicroR = true; break;
+         case GW_MICRO2CPP: useMicroS = true; R.SetRef(new ExactFrame<MessageIOGateway>()); break;
          default: Fail("harness", "gateway type not implemented in C03");
       }
+      if (useMicroS) {microBufs[0].resize(1024); microBufs[1].resize(1<<20); UGGatewayInitialize(&microS, &microBufs[0][0], (uint32) microBufs[0].size(), &microBufs[1][0], (uint32) microBufs[1].size());}
+      if (useMicroR) {microBufs[2].resize(1<<18); microBufs[3].resize(1024); UGGatewayInitialize(&microR, &microBufs[2][0], (uint32) microBufs[2].size(), &microBufs[3][0], (uint32) microBufs[3].size());}
       if (S()) {sio = new SimDataIO(&b2a, &a2b); S()->SetDataIO(DataIORef(sio));}
       if (R()) {rio = new SimDataIO(&a2b, &b2a); R()->SetDataIO(DataIORef(rio));}
       const uint64 ts = (uint64) cfg.i("ts", 0);
@@ -176,6 +181,7 @@ struct Harness
          th.u((uint64_t) r.GetByteCount());
          if ((maxBytes)&&((uint32) r.GetByteCount() > maxBytes)&&(gw != GW_WS)) Fail("maxbytes_exceeded", "DoOutput(" + U(maxBytes) + ") reported " + U(r.GetByteCount()) + " bytes");
       }
+      else if (useMicroS) {const int32 r = UGDoOutput(&microS, maxBytes ? maxBytes : MUSCLE_NO_LIMIT, CSend, &a2b); if (r < 0) Fail("sender_error", "UGDoOutput returned error"); th.u((uint64_t) r);}
       else {const int32 r = MGDoOutput(miniS, maxBytes ? maxBytes : MUSCLE_NO_LIMIT, CSend, &a2b); if (r < 0) Fail("sender_error", "MGDoOutput returned error"); th.u((uint64_t) r);}
    }
    void DoIn(uint32 maxBytes)
@@ -186,6 +192,13 @@ struct Harness
          if (r.IsError()) Fail("receiver_error", std::string("receiver DoInput returned ") + r.GetStatus()());
          th.u((uint64_t) r.GetByteCount());
          DrainReceived();
+      }
+      else if (useMicroR)
+      {
+         UMessage um; const int32 r = UGDoInput(&microR, maxBytes ? maxBytes : MUSCLE_NO_LIMIT, CRecv, &a2b, &um);
+         if (r < 0) Fail("receiver_error", "UGDoInput returned error");
+         th.u((uint64_t) r);
+         if (UMIsMessageValid(&um)) {got.push_back(std::string((const char *) UMGetFlattenedBuffer(&um), UMGetFlattenedSize(&um))); res.stats.inc("msgs_delivered");}
       }
       else
       {
@@ -215,6 +228,14 @@ struct Harness
    {
       Units(m, sent);
       if (S()) {if (S()->AddOutgoingMessage(m).IsError()) Fail("harness", "AddOutgoingMessage failed");}
+      else if (useMicroS)
+      {
+         UMessage um = UGGetOutgoingMessage(&microS, m()->what);
+         if (UMIsMessageValid(&um) == UFalse) Fail("harness", "UGGetOutgoingMessage found no room in a 1 MiB output buffer");
+         std::vector<std::vector<uint8_t> > scratch;
+         if (!FillUMessage(&um, *m(), scratch)) {UGOutgoingMessageCancelled(&microS, &um); Fail("c_codec_rejects", "the micro codec could not express a Message of the common type repertoire");}
+         UGOutgoingMessagePrepared(&microS, &um);
+      }
       else
       {
          const std::string b = Flat(m);
@@ -228,6 +249,7 @@ struct Harness
    bool SenderIdle() const
    {
       if (S()) return (S()->HasBytesToOutput() == false)&&(S()->GetOutgoingMessageQueue().IsEmpty());
+      if (useMicroS) return (UGHasBytesToOutput(&microS) == UFalse);
       return (MGHasBytesToOutput(miniS) == false);
    }
    bool AllDelivered() const
